@@ -25,6 +25,7 @@ NUMBERS = {
     "int": ["i", 3], "float": ["fl", (2.5).hex()], "Fraction": ["F", 7, 3],
     "Decimal": ["D", "1.25"], "StdDecimal": ["SD", "4.5"],
     "complex": ["cx", 1.0, 2.0],
+    "bool": ["b", True], "bool-false": ["b", False],
     "int-zero": ["i", 0], "float-zero": ["fl", (0.0).hex()],
     "Decimal-zero": ["D", "0"], "Fraction-zero": ["F", 0, 1],
 }
@@ -140,7 +141,9 @@ def same_type_sub(chk, rng, w, wid, plan=None):
                                     OP("*", num(k), V("b")))},
              {"k": "sum", "e": ["sum", ["l", [V("a"), V("b"), V("c")]]]},
              {"k": "sum0", "e": ["sum", ["l", []]]},
-             {"k": "sum1", "e": ["sum", ["l", [V("b")]]]}]
+             {"k": "sum1", "e": ["sum", ["l", [V("b")]]]},
+             {"k": "sumstart", "e": ["c", ["g", "quantity:sum"],
+                                     [["l", [V("b"), V("c")]], V("a")]]}]
     quantized = t.quantum is not None
 
     def judge(obs):
@@ -188,6 +191,7 @@ def same_type_sub(chk, rng, w, wid, plan=None):
         expect("+a", ra, sa)
         expect("sum", ra + rb + rc, sa)
         expect("sum1", rb, sb)
+        expect("sumstart", ra + rb + rc, sa)
         if not quantized:
             expect("k(a+b)", k * (ra + rb), sa)
             expect("ka+kb", k * (ra + rb), sa)
